@@ -134,18 +134,24 @@ theorem singles_line (uid : α → Option Key) (f : List α) (idxs : List Nat) (
 
 /-! ### window around a token between two tokens -/
 
-theorem nBeforeAndAfterBounded_exact_partial (uid : α → Option Key) (f : List α) (n : Nat) (cs : List Cls)
+theorem nBeforeAndAfterBounded_exact (uid : α → Option Key) (f : List α) (n : Nat) (cs : List Cls)
     (a b : Option Key) (r : List (Toi α)) (h : nBeforeAndAfterBounded f (processTokens uid f) n cs a b = .ok r) :
-    ∀ t ∈ r, ∃ i : Nat, t.start = some ((i : Int) - (n : Int)) ∧ t.line = lineNo uid f i ∧ (n ≤ i → t.Exact f) := by
+    ∀ t ∈ r, t.Exact f ∧ ∃ i : Nat, n ≤ i ∧ t.start = some ((i - n : Nat) : Int) ∧ t.line = lineNo uid f i := by
   intro t ht
   unfold nBeforeAndAfterBounded at h
-  obtain ⟨i, hi, hb⟩ := mem_mapE _ _ _ h t ht
+  obtain ⟨i, hi, hb⟩ := mem_filterMapE _ _ _ h t ht
   have hlt := fresh_filterBetween_lt uid f cs a b i hi
-  simp only [bind_ok, pure_ok] at hb
-  obtain ⟨line, hl, rfl⟩ := hb
-  refine ⟨i, rfl, by simpa using lineOf_fresh uid f i line hl, ?_⟩
-  intro hn
-  exact exact_of_slice f _ ((i : Int) - (n : Int)) _ rfl (by omega) (by omega) rfl
+  simp only [bind_ok] at hb
+  obtain ⟨line, hl, hb⟩ := hb
+  split at hb
+  · rename_i hge
+    simp only [pure_ok, Option.some.injEq] at hb
+    subst hb
+    have hn : n ≤ i := by omega
+    have e1 : (i : Int) - (n : Int) = ((i - n : Nat) : Int) := by omega
+    exact ⟨exact_of_slice f _ ((i : Int) - (n : Int)) _ rfl (by omega) (by omega) rfl, i, hn, by simp; exact e1,
+      by simpa using lineOf_fresh uid f i line hl⟩
+  · simp [pure, Except.pure] at hb
 
 /-! ### the line that includes a token -/
 
